@@ -229,12 +229,12 @@ def run(tier):
     hists, hid = [], 0
     rng.shuffle(h4)
     rng.shuffle(hsim)
-    pick4 = [h for h in h4 if reorgs(h) >= 1][: (24 if quick else 400)]
-    picks = [h for h in hsim if reorgs(h) >= 1][: (16 if quick else 200)] + [h for h in hsim if reorgs(h) == 0][:4]
+    pick4 = [h for h in h4 if reorgs(h) >= 1][: (24 if quick else 300)]
+    picks = [h for h in hsim if reorgs(h) >= 1][: (16 if quick else 150)] + [h for h in hsim if reorgs(h) == 0][:4]
     for h in pick4 + picks:
         hid += 1
         hists.append({"id": hid, "steps": decorate(h), "src": "tlc"})
-    for _ in range(10 if quick else 60):
+    for _ in range(10 if quick else 40):
         hid += 1
         hists.append({"id": hid, "steps": random_history(rng, led, rng.randrange(7, 13), 0.08), "src": "random"})
     tot = run_chain(c, txs, gen, hists, 4, "chain", 7)
